@@ -357,6 +357,20 @@ func appendSlice(expr ast.Expr, lhsV reflect.Value, rhsV reflect.Value) (reflect
 	}
 
 	if !leftHasSubArray && !rightHasSubArray {
+		// an element that cannot be converted fails the append before anything is
+		// stored: the left side may share its spare capacity with other slices
+		for i := 0; i < rhsV.Len(); i++ {
+			value := rhsV.Index(i)
+			if rhsT == interfaceType {
+				value = value.Elem()
+				if !value.IsValid() {
+					continue
+				}
+			}
+			if lhsT != value.Type() && !value.Type().ConvertibleTo(lhsT) {
+				return nilValue, newStringError(expr, "invalid type conversion")
+			}
+		}
 		for i := 0; i < rhsV.Len(); i++ {
 			value := rhsV.Index(i)
 			if rhsT == interfaceType {
@@ -378,6 +392,19 @@ func appendSlice(expr ast.Expr, lhsV reflect.Value, rhsV reflect.Value) (reflect
 	}
 
 	if (leftHasSubArray || lhsT == interfaceType) && (rightHasSubArray || rhsT == interfaceType) {
+		// the same for lists of lists: convert every element once before storing any
+		for i := 0; i < rhsV.Len(); i++ {
+			value := rhsV.Index(i)
+			if rhsT == interfaceType {
+				value = value.Elem()
+				if value.Kind() != reflect.Slice && value.Kind() != reflect.Array {
+					return nilValue, newStringError(expr, "invalid type conversion")
+				}
+			}
+			if _, err := appendSlice(expr, reflect.MakeSlice(lhsT, 0, value.Len()), value); err != nil {
+				return nilValue, err
+			}
+		}
 		for i := 0; i < rhsV.Len(); i++ {
 			value := rhsV.Index(i)
 			if rhsT == interfaceType {
